@@ -4,11 +4,14 @@
 # /verif (whose harness points at that repo) — used while other work needs /repo untouched.
 set -u
 PATCH=$1; shift
-cd /tmp/mutrun/repo && git checkout -q -- . && git apply "$PATCH" || { echo "patch does not apply"; exit 3; }
-rsync -a --exclude 'harness/target*' --exclude .git --exclude .work --exclude evidence/replay /verif/ /tmp/mutrun/verif/
-sed -i 's|path = "/repo"|path = "/tmp/mutrun/repo"|' /tmp/mutrun/verif/harness/Cargo.toml
-cd /tmp/mutrun/verif
+M=${MUTRUN:-/tmp/mutrun}
+mkdir -p "$M"
+[ -d "$M/repo" ] || git -C /repo worktree add --detach "$M/repo" HEAD >/dev/null 2>&1
+cd "$M/repo" && git checkout -q -- . && git apply "$PATCH" || { echo "patch does not apply"; exit 3; }
+rsync -a --exclude 'harness/target*' --exclude .git --exclude .work --exclude evidence/replay /verif/ $M/verif/
+sed -i "s|path = \"/repo\"|path = \"$M/repo\"|" $M/verif/harness/Cargo.toml
+cd $M/verif
 for p in "$@"; do
   ./check "$p" 2>&1 | grep -E "VIOLATION|KNOWN|tier=|CHECK-ERROR" | head -4
 done
-cd /tmp/mutrun/repo && git checkout -q -- .
+cd "$M/repo" && git checkout -q -- .
